@@ -60,3 +60,34 @@ package standard
 //@   panics
 //@   assert before copy: nodeOK(node) ==> sameArray(arg1, node.buf) && off(arg1) == off(node.buf) + node.off && len(arg1) <= node.malloc - node.off
 //@   assert before copy: sameArray(arg0, buf) && off(arg0) == off(buf) + pIdx
+
+// ReadByte / ReadBinary (typestates): bytes are taken only through Peek - which knows how to cross buffer nodes -
+// and the read pointer moves, by exactly the number of bytes asked for, only after that Peek succeeded.
+//@ ghost var rbOK bool
+//@ ghost var rbArr int
+//@ ghost var rbOff int
+//@ ghost var rbLen int
+//@ func Conn.ReadByte(c) p, err
+//@   props C02
+//@   abstract
+//@   noinline
+//@   panics
+//@   modifies rbOK, rbArr, rbOff, rbLen
+//@   ghostset-at-entry rbOK = false
+//@   assert before Conn.Peek: arg0 == c && arg1 == 1
+//@   ghostset after Conn.Peek: rbOK = (result1 == nil)
+//@   assert before Conn.Skip: arg0 == c && arg1 == 1 && rbOK
+//@ func Conn.ReadBinary(c, i) r, err
+//@   props C02
+//@   abstract
+//@   noinline
+//@   panics
+//@   modifies rbOK, rbArr, rbOff, rbLen
+//@   ghostset-at-entry rbOK = false
+//@   assert before Conn.Peek: arg0 == c && arg1 == i
+//@   ghostset after Conn.Peek: rbOK = (result1 == nil)
+//@   ghostset after Conn.Peek: rbArr = arr(result0)
+//@   ghostset after Conn.Peek: rbOff = off(result0)
+//@   ghostset after Conn.Peek: rbLen = len(result0)
+//@   assert before copy: rbOK && arr(arg1) == rbArr && off(arg1) == rbOff && len(arg1) == rbLen && sameSlice(arg0, out)
+//@   assert before Conn.Skip: arg0 == c && arg1 == i && rbOK
